@@ -25,7 +25,7 @@ def piece(report, tier, seed):
         stim = os.path.join(tdir, "merge_stim_%s.ndjson" % tag)
         if os.path.exists(stim):
             os.unlink(stim)
-        r = tlc_model("MC_Merge", cfg, env={"VERIF_OUT": stim}, workers=12, timeout=1500, expect=['"STIMULI"'])
+        r = tlc_model("MC_Merge", cfg, env={"VERIF_OUT": stim}, workers=12, timeout=1500, expect=['"STIMULI"'], coverage=True)
         if r["never_taken"]:
             raise ToolError("vacuous model run, actions never taken: %s" % r["never_taken"])
         states += r["distinct"]
